@@ -454,6 +454,10 @@ def yearlen_sites(repo, rep, mod, qual, term, year_term):
     rep.rule("R-YEARLEN", "denominator of the fractional year >= get_doy(year, 12, 31) for every class of year (side of 1582/1583, residue mod 400, sign)")
     site = "%s.%s" % (mod, qual)
     found = []
+    # epoch.doy() / epoch.leap() are get_doy(*epoch.get_date()) / is_leap(year): read through
+    from ..rules import inline_repo_calls
+    if any(y[0] == "call" and y[1] in ("Epoch.Epoch.doy", "Epoch.Epoch.leap") for y in T.walk(term)):
+        term = inline_repo_calls(repo, term, depth=1, only_mod="Epoch")
     has_doy = lambda f: any(y[0] == "call" and y[1] == "Epoch.Epoch.get_doy" for y in T.walk(f))
     for a_ in T.walk(term):
         if a_[0] != "add" or year_term not in a_[1:]:
